@@ -31,10 +31,22 @@ LongName(L, tag) ==
 LongValues ==
   { << <<LongName(LongLens[k], 97), Body(1, 33)>> >> : k \in 1..6 }
   \cup { << <<LongName(a, 97), Body(1, 1)>>, <<LongName(b, 99), Body(2, 32)>> >> : a \in {65, 129}, b \in {64, 65, 129} }
+\* ---- wider name domain: single-byte-only and double-byte names of 255/256/257 bytes (around a one-byte length
+\* class), 300 and 1000 bytes; names of half-width katakana whose Shift-JIS bytes are also well-formed UTF-8
+\* (lead 0xC2..0xDF, trail 0xA1..0xBF)
+SingleName(L, tag) == <<tag>> \o [p \in 1..(L - 1) |-> 97 + (p % 26)]
+WideLens == {255, 256, 257, 300, 1000}
+U8Names == << <<195, 169>>, <<206, 177, 46, 98>>, <<97, 223, 191>> >>
+WideValues ==
+  { << <<LongName(L, 97), Body(1, 33)>> >> : L \in WideLens }
+  \cup { << <<SingleName(L, 100), Body(1, 33)>> >> : L \in WideLens }
+  \cup { << <<SingleName(256, 100), Body(1, 1)>>, <<LongName(257, 99), Body(2, 33)>> >> }
+  \cup { << <<U8Names[k], Body(1, 33)>> >> : k \in 1..3 }
+  \cup { << <<U8Names[1], Body(1, 33)>>, <<U8Names[2], Body(2, 1)>> >> }
 MaxN == 3
-Values == UNION { ValuesOfSize(n) : n \in 0..MaxN } \cup LongValues
+Values == UNION { ValuesOfSize(n) : n \in 0..MaxN } \cup LongValues \cup WideValues
 \* replayed against the code: three names are enough for three files (keeps the printed volume bounded)
-GenValues == UNION { ValuesOver(n, IF n <= 2 THEN 1..4 ELSE 1..3) : n \in 0..MaxN } \cup LongValues
+GenValues == UNION { ValuesOver(n, IF n <= 2 THEN 1..4 ELSE 1..3) : n \in 0..MaxN } \cup LongValues \cup WideValues
 
 \* ---- layouts in scope
 Items(n) == { <<k, i>> : k \in {"n", "b"}, i \in 1..n }
